@@ -30,7 +30,7 @@ ASSUMPTIONS = [
     "the theorems speak about texts that a plain JSON parse accepts (JSON white space only around the value); texts that are JSON only "
     "after Params::new's Unicode trim are covered by C16_typed_agrees_stored and by the model diff, the direct oracle is silent there",
     "texts that are not JSON (never produced by the request parser) are only required to give -32602 / no panic / no element after a "
-    "failed read: e.g. `[1 [2]]` and `[1\u00a0,2]` are read as two elements by the code and by the model",
+    "failed read: e.g. `[1 [2]]` and `[1 <U+00A0>,2]` are read as two elements by the code and by the model",
 ]
 
 U64MAX, I64MIN, I64MAX = 2**64 - 1, -2**63, 2**63 - 1
